@@ -51,6 +51,7 @@ inductive Outcome where
   | rollbackFailed (e : Errno)      -- rename failed and the rollback reported errors
   | backupFailed      -- everything applied, then `generate_reverse_patches` could not read a file
   | destExists        -- pre-flight: a rename destination already exists; nothing was changed
+  | sharedDest        -- pre-flight: two renames of the plan share a destination (repo commit 01297aa); nothing was changed
   deriving DecidableEq, Repr
 
 structure Result where
@@ -187,8 +188,28 @@ def backupPhase (r : Result) (files : List Path) : Result :=
 def preflightOk (t : Tree) (rs : List Ren) : Bool :=
   rs.all (fun r => r.newPath.isEmpty || r.newPath == r.path || (lookup t r.newPath).isNone)
 
-def applyPlan (t : Tree) (p : Plan) : Result :=
-  if !preflightOk t p.rens then { outcome := .destExists, tree := t } else
+/-- renames the pre-flight loop of `apply_plan` passes over (`continue`) -/
+def skipRen (r : Ren) : Bool := r.newPath.isEmpty || r.newPath == r.path
+
+/-- repo commit 01297aa: an earlier rename of the plan (one the loop did not skip) has the same destination and a
+    different source.  The code keeps a `HashMap` destination -> source and compares with the entry it replaces;
+    every earlier entry for one destination has the same source (or the loop would have stopped there), so "some
+    earlier entry differs" and "the latest earlier entry differs" coincide. -/
+def sharesDest (seen : List Ren) (r : Ren) : Bool :=
+  ExecFlags.sharedDestRefused && seen.any (fun s => s.newPath == r.newPath && s.path != r.path)
+
+/-- the pre-flight loop of `apply_plan`, in plan order: skip test, shared-destination test, exists test;
+    `seen` = the renames already passed (newest first) -/
+def preflight (t : Tree) : List Ren → List Ren → Option Outcome
+  | _, [] => none
+  | seen, r :: rs =>
+    if skipRen r then preflight t seen rs
+    else if sharesDest seen r then some .sharedDest
+    else if (lookup t r.newPath).isSome then some .destExists
+    else preflight t (r :: seen) rs
+
+/-- STEP 2 - STEP 4, what `apply_plan` does once the pre-flight loop has passed -/
+def applyCore (t : Tree) (p : Plan) : Result :=
   match contentPhase p.hunks t (sortedFiles p.hunks) with
   | (.ok, t1) =>
     let r := renamePhase t1 [] (sortRens p.rens)
@@ -196,5 +217,10 @@ def applyPlan (t : Tree) (p : Plan) : Result :=
     | .ok => backupPhase r (sortedFiles p.hunks)
     | _ => r
   | (o, t1) => { outcome := o, tree := t1 }
+
+def applyPlan (t : Tree) (p : Plan) : Result :=
+  match preflight t [] p.rens with
+  | some o => { outcome := o, tree := t }
+  | none => applyCore t p
 
 end Apply
